@@ -73,7 +73,7 @@ func c18Run(c c18Case) []*core.Violation {
 	if c.Spec.Subject != nil {
 		if all := root.All("Subject"); len(all) == 1 {
 			dec, _ := mimeread.DecodeWords(all[0])
-			if oracle.NormWS(dec) != oracle.NormWS(*c.Spec.Subject) {
+			if trimWS(dec) != trimWS(*c.Spec.Subject) {
 				vs = append(vs, core.V("unfold-mismatch", "Subject unfolds/decodes to %q, %q was set", clipS(dec), clipS(*c.Spec.Subject)))
 			}
 		} else {
@@ -88,7 +88,7 @@ func c18Run(c c18Case) []*core.Violation {
 		}
 		dec, _ := mimeread.DecodeWords(all[0])
 		want := strings.Join(h.Values, ", ")
-		if oracle.NormWS(dec) != oracle.NormWS(want) {
+		if trimWS(dec) != trimWS(want) {
 			vs = append(vs, core.V("unfold-mismatch", "%s unfolds/decodes to %q, %q was set", h.Name, clipS(dec), clipS(want)))
 		}
 	}
@@ -193,6 +193,10 @@ func c18Run(c c18Case) []*core.Violation {
 	}
 	return vs
 }
+
+// trimWS removes leading and trailing blanks only: inside the value every blank has to survive
+// folding and unfolding (C18 does not normalise whitespace the way C02 does).
+func trimWS(s string) string { return strings.Trim(s, " \t") }
 
 func c18ChunkKey(s *gen.MsgSpec) string {
 	var sb strings.Builder
@@ -327,7 +331,7 @@ func TestC18(t *testing.T) {
 	rec := core.Rec("C18")
 	rec.Rule = "rapid draws a message program with header values made of 1..25 words of 0..300 characters separated by 1..3 blanks (Subject, 0..2 generic headers with 1..3 values, To lists of 1..20 and Cc lists of 1..6 mailboxes with long display names/local parts, long multi-word file names, part and file descriptions), " +
 		"QP/base64/8bit bodies and files with contents around the 57/76-byte wrapping points, and producers that chunk their writes (1-byte, primes, 3/57/76 +-1, random); a second chunk plan is drawn for the metamorphic comparison. " +
-		"Oracle on raw lines of WriteTo's output: CRLF only, no bare CR/LF in header sections and QP/base64 bodies; encoded body lines <= 76; header lines > 78 only if they have no folding opportunity; Subject/generic/address fields unfold and decode to what was set; leaves decode to the supplied content; every leaf is byte-identical under the two chunkings. " +
+		"Oracle on raw lines of WriteTo's output: CRLF only, no bare CR/LF in header sections and QP/base64 bodies; encoded body lines <= 76; header lines > 78 only if they have no folding opportunity; Subject/generic fields unfold and decode to exactly what was set (only leading/trailing blanks trimmed), address fields to the mailboxes set; leaves decode to the supplied content; every leaf is byte-identical under the two chunkings. " +
 		"Non-trivial: a value longer than 60 bytes, content longer than one encoded line, or a chunked producer. Distinct by (shape key, longest word decile, number of recipients, chunk plans)."
 	rec.Assumptions = []string{"a header line has a folding opportunity iff, after the field name (or the leading blank of a continuation), it contains a blank between non-blank text", "8bit/7bit bodies are caller content and carry no line rules"}
 	core.Prop[c18Case]{ID: "C18", Test: "TestC18", Gen: c18Gen, Run: c18Run}.Check(t)
